@@ -47,6 +47,23 @@ def literal_ok(engine, text):
     return got == want, [op for op, _ in nodes]
 
 
+SPECIAL = set(getattr(sre_parse, "SPECIAL_CHARS", ".\\[{()*+?^$|")) | set(".\\[{()*+?^$|")
+CONSTRUCTS = ["x{2}y", "x{2,3}y", "x{,}y", "x{2,}y", "{2}", "pad{,3}end", "(?:x)", "(?i)x", "(?P<a>x)", "(?#c)x", "x*?y", "x+?y", "x??y", "a|b", "(a|b)", "x.y", "x.*y", "a.+", "x(y)z", "(x)+", "1.2.3+b(4)", "v1.0*", "c++", "what?", "$(x)", "${y}", "a{b}c", "#x", " x ", "x\ty"]
+CONSTRUCTS = [t for t in CONSTRUCTS if "\t" not in t]
+
+
+def comp_image(engine, c):
+    """What the compiler turns the single character c into (between two inert characters)."""
+    ensure_src()
+    from bumpver import v2patterns, v1patterns
+
+    comp = v2patterns._compile_pattern_re if engine == "v2" else v1patterns._compile_pattern_re
+    rx = comp("x" + c + "y").pattern
+    if not (rx.startswith("x") and rx.endswith("y")):
+        raise ValueError(f"x{c}y compiled to {rx!r}")
+    return rx[1:-1]
+
+
 def replay_literal(engine, text):
     return literal_ok(engine, text)[0]
 
@@ -123,6 +140,27 @@ def run(tier="quick", seed=0):
             ok, why = literal_ok(engine, c + d)
             if not ok:
                 bad.append((c + d, why))
+        # multi-character regex constructs (quantifier braces, groups, lazy quantifiers, inline flags, alternation)
+        for t in CONSTRUCTS:
+            if engine == "v1" and ("{" in t or "}" in t):
+                continue  # braces delimit parts in legacy patterns
+            n += 1
+            ok, why = literal_ok(engine, t)
+            if not ok:
+                bad.append((t, why))
+        # the all-lengths argument: the compiler is a character map (facts below), so a text compiles to literals only
+        # if every character the regex parser treats as special is mapped to its escaped form
+        for c in CHARS:
+            if engine == "v1" and c in "{}":
+                continue
+            n += 1
+            try:
+                image = comp_image(engine, c)
+            except Exception as e:  # noqa
+                bad.append(("x" + c + "y", f"{type(e).__name__}: {e}"))
+                continue
+            if (c in SPECIAL and image != "\\" + c) or (c not in SPECIAL and image not in (c, "\\" + c)):
+                bad.append(("x" + c + "y", f"character {c!r} is compiled to {image!r}"))
         new = [(t, w) for t, w in bad if classify(engine, t) not in known_classes]
         hit_known = sorted({classify(engine, t) for t, w in bad if classify(engine, t) in known_classes})
         res = dict(
@@ -131,7 +169,7 @@ def run(tier="quick", seed=0):
             verdict="held" if not bad else "refuted",
             cases=n,
             distinct=n,
-            domain=f"{len(CHARS)} admissible characters embedded as x?y and all ordered pairs ({engine} compiler), regex parse tree must be literals only",
+            domain=f"{len(CHARS)} admissible characters embedded as x?y, all ordered pairs and {len(CONSTRUCTS)} multi-character regex constructs ({engine} compiler): regex parse tree must be literals only; every character of re's SPECIAL_CHARS must be compiled to its escaped form (all-lengths argument with the character-map facts)",
             witness=[dict(text=t, parse=w, witness_class=classify(engine, t)) for t, w in (new or bad)[:5]],
             observed=str((new or bad)[0]) if bad else None,
             python_replay=(dict(module="checks.c07", function="replay_literal", args=[engine, (new or bad)[0][0]]) if bad else None),
